@@ -209,7 +209,8 @@ def is_a(l, base):
 
 
 def bn_subclass(l):
-  """a user subclass of QBatchNormalization (the export selects the batch-norm pairing by class NAME)"""
+  """a user subclass of QBatchNormalization (fix round 2: the export selects the batch-norm pairing by
+  isinstance, so it is exported like the library class; only used to label violation keys)"""
   return is_a(l, "QBatchNormalization") and l.__class__.__name__ != "QBatchNormalization"
 
 
@@ -396,8 +397,8 @@ class RealRun:
     # ---- oracle closure: every tensor a position can hold within the exports under the layer's own
     # (quantizer, weight) pairing — the pairing the export has to use; if the export ever pairs
     # differently the driver finds no table row (poison) and the weights disagree.
-    # Exception (recorded finding C14-bn-subclass-zip): a user subclass of QBatchNormalization is
-    # zipped positionally by the export; the model mirrors that, so those rows are provided as well.
+    # (Fix round 2: no exception for user subclasses of QBatchNormalization any more — the rows of the
+    # positional zip are gone, so that defect coming back is a disagreement + un-mirrored VIOLATION.)
     for Wbase, fold in bases:
       for i, (l, kind) in enumerate(zip(layers, self.kinds)):
         if kind == "noq":
@@ -407,8 +408,6 @@ class RealRun:
           cand = set()
           if k < len(self.fwd[i]):
             cand.add(self.fwd[i][k])
-          if bn_subclass(l):
-            cand.add(k)
           cand = [self.qs[i][c] for c in sorted(cand) if c < len(self.qs[i]) and self.qs[i][c] is not None]
           seen = {key_of(w): w}
           frontier = [w]
@@ -579,7 +578,8 @@ class RealRun:
            "allow": cls in (self.case.sparsity_kw.get("allow_list") or ALLOW) and hasattr(l, "quantizers"),
            "bn": None, "pool": None}
       if is_a(l, "QBatchNormalization"):
-        # (the model reads it for the class NAME QBatchNormalization only, like the export)
+        # every instance of QBatchNormalization, user subclasses included: the model's `Layer.bn`
+        # is its "isinstance(layer, QBatchNormalization)" flag (the export's pairing test)
         d["bn"] = {"scale": bool(l.scale), "center": bool(l.center), "eps": core.rj(float(l.epsilon))}
       if i in self.pool:
         area, mf, _ = self.pool[i]
@@ -1088,7 +1088,8 @@ def build_cases(rng, tier, rot0=0):
       mk_bidir2("rnn", "gru", ("fx6", "fx3", "fx6"), ("po2", "fx6", "ter1"), True, False, sub=True))
   add("subclass[Mylstm]", {"cls": "user-subclass", "base": "rnn"}, mk_rnn_sub("lstm", "po2", "fx3", "fx6"))
   # -- user subclasses of the other classes the export treats specially
-  for sc, ce, fused in [(True, True, False), (True, True, True), (False, True, False), (True, False, True)]:
+  for sc, ce, fused in [(True, True, False), (True, True, True), (False, True, False), (True, False, True),
+                        (False, False, False), (True, False, False), (False, True, True)]:
     add("subclass[MyBN(scale=%s,center=%s)%s]" % (sc, ce, " after QConv2D" if fused else ""),
         {"cls": "user-subclass", "base": "QBatchNormalization", "bn_scale": sc, "bn_center": ce},
         mk_bn_sub(sc, ce, fused))
@@ -1463,7 +1464,6 @@ def _compare_case(run, r, o, N, judge_lines, judge_meta):
               "bn_center": bool(getattr(l, "center", True)) if isbn else None}
       if bn_subclass(l):
         site["bn_user_subclass"] = True
-        site["bn_scale_and_center"] = bool(l.scale and l.center)
       if kind != "folded":
         got = Wa[i]
         if [key_of(t) for t in got] != [key_of(t) for t in expect]:
@@ -1600,8 +1600,6 @@ def _compare_case(run, r, o, N, judge_lines, judge_meta):
                        and isinstance(q.alpha, (int, float)) and q.alpha != 1) for qs in r.qs for q in qs)
     site = {"site": "idempotence", "data_dependent_scale": r.data_dep, "const_alpha_not_1": const_alpha,
             "classes": "+".join(sorted({l.__class__.__name__ for l in layers if hasattr(l, "get_quantizers")}))}
-    if any(bn_subclass(l) and not (l.scale and l.center) for l in layers):
-      site["bn_user_subclass_without_scale_or_center"] = True
     if all_indep:
       if not pred_same:
         run.violate("predict_unchanged", site, {"case": label, "round": rd,
